@@ -592,6 +592,8 @@ func (e *Engine) appendBuiltin(args []Value) Value {
 		a := e.st.arrayForWrite(s.Arr)
 		for i, v := range add {
 			a.E[s.Off+s.Len+i] = v
+			// writing into spare capacity is a write to shared memory like any other (lockset)
+			e.recordAccess(Ptr{Obj: s.Arr.Obj, Path: append(append([]int(nil), s.Arr.Path...), s.Off+s.Len+i)}, true)
 		}
 		return Slice{Arr: s.Arr, Off: s.Off, Len: need, Cap: s.Cap}
 	}
@@ -700,6 +702,7 @@ func (e *Engine) copyBuiltin(args []Value) Value {
 		a := e.st.arrayForWrite(d.Arr)
 		for i, v := range src {
 			a.E[d.Off+i] = v
+			e.recordAccess(Ptr{Obj: d.Arr.Obj, Path: append(append([]int(nil), d.Arr.Path...), d.Off+i)}, true)
 		}
 	}
 	return smt.BV(uint64(len(src)), 64)
